@@ -33,6 +33,7 @@ type c15Prog struct {
 	LowerIx int        `json:"lowerIx"`          // index into the expected range (mod)
 	Amount  int        `json:"amount"`           // -1: no amount; else candidate selector
 	Merge   bool       `json:"merge"`            // the chosen replica first merges every other replica (forked log)
+	OneOpts bool       `json:"oneOpts,omitempty"` // the caller keeps ONE IteratorOptions value for all its queries, setting for each query the fields it needs and clearing those it set before and no longer needs
 	Stream  int        `json:"stream,omitempty"` // k > 0: at the end the log is iterated once more, on a goroutine of its own, into an UNBUFFERED channel whose consumer appends to the log after each of the first k entries it receives
 	More    []c15Query `json:"more,omitempty"`   // further queries on the SAME log object, each after a generated step (nothing, an append, a merge, a failing query, the same query again)
 }
@@ -70,6 +71,7 @@ func genC15(t *rapid.T) c15Prog {
 			Amount:  rapid.OneOf(rapid.Just(-1), rapid.IntRange(0, 1<<16), rapid.IntRange(0, 1<<16)).Draw(t, "amount"),
 		})
 	}
+	p.OneOpts = len(p.More) > 0 && rapid.IntRange(0, 2).Draw(t, "oneOpts") == 0
 	if rapid.IntRange(0, 5).Draw(t, "stream") == 0 {
 		p.Stream = rapid.IntRange(1, 3).Draw(t, "streamAppends")
 	}
@@ -116,7 +118,14 @@ func runC15(tb ev.TB, p c15Prog) ev.Result {
 			}
 		}
 	}
-	nt, cl := runQuery(tb, w, r, c15Query{Upper: p.Upper, UpperIx: p.UpperIx, Lower: p.Lower, LowerIx: p.LowerIx, Amount: p.Amount})
+	var sh *sharedOpts
+	if p.OneOpts {
+		sh = &sharedOpts{opts: &ipfslog.IteratorOptions{}, set: map[string]bool{}}
+	}
+	nt, cl := runQuery(tb, w, r, c15Query{Upper: p.Upper, UpperIx: p.UpperIx, Lower: p.Lower, LowerIx: p.LowerIx, Amount: p.Amount}, sh)
+	if p.OneOpts {
+		cl = append(cl, "one-options-value-for-all-queries")
+	}
 	// further queries on the same log object: an iterator leaves nothing behind, whatever it was asked and however it
 	// ended, and sees whatever the log has become since
 	for qi, q := range p.More {
@@ -135,7 +144,7 @@ func runC15(tb ev.TB, p c15Prog) ev.Result {
 		case "values":
 			_ = r.Log.Values()
 		}
-		nt2, cl2 := runQuery(tb, w, r, q)
+		nt2, cl2 := runQuery(tb, w, r, q, sh)
 		nt = nt || nt2
 		cl = append(cl, "further-query-after-"+q.Between)
 		_ = cl2
@@ -212,7 +221,37 @@ func streamCheck(tb ev.TB, w *sim.World, r *sim.Replica, k int) {
 }
 
 // runQuery runs one iterator query on replica r and checks its outcome against the registry.
-func runQuery(tb ev.TB, w *sim.World, r *sim.Replica, p c15Query) (bool, []string) {
+// sharedOpts is the one IteratorOptions value of a caller that reuses it, and the fields the caller itself set last time.
+type sharedOpts struct {
+	opts *ipfslog.IteratorOptions
+	set  map[string]bool
+}
+
+// apply writes the wanted query into the caller's one options value the way such a caller does: it assigns the fields
+// this query needs and clears the fields it had set for the previous query and does not need now; fields it never
+// touched stay as they are.
+func (s *sharedOpts) apply(want *ipfslog.IteratorOptions) *ipfslog.IteratorOptions {
+	now := map[string]bool{"LT": want.LT != nil, "LTE": want.LTE != nil, "GT": want.GT.Defined(), "GTE": want.GTE.Defined(), "Amount": want.Amount != nil}
+	if now["LT"] || s.set["LT"] {
+		s.opts.LT = want.LT
+	}
+	if now["LTE"] || s.set["LTE"] {
+		s.opts.LTE = want.LTE
+	}
+	if now["GT"] || s.set["GT"] {
+		s.opts.GT = want.GT
+	}
+	if now["GTE"] || s.set["GTE"] {
+		s.opts.GTE = want.GTE
+	}
+	if now["Amount"] || s.set["Amount"] {
+		s.opts.Amount = want.Amount
+	}
+	s.set = now
+	return s.opts
+}
+
+func runQuery(tb ev.TB, w *sim.World, r *sim.Replica, p c15Query, sh *sharedOpts) (bool, []string) {
 	l := r.Log
 	all := r.Model.Sorted()
 	opts := &ipfslog.IteratorOptions{}
@@ -296,6 +335,9 @@ func runQuery(tb ev.TB, w *sim.World, r *sim.Replica, p c15Query) (bool, []strin
 	}
 
 	ch := make(chan iface.IPFSLogEntry, len(all)+2)
+	if sh != nil {
+		opts = sh.apply(opts)
+	}
 	err := l.Iterator(opts, ch) // a panic is a violation
 	cl := []string{"upper-" + upper, "lower-" + lower}
 	if amount >= 0 {
